@@ -199,8 +199,14 @@ class Sinks(object):
 STR_VARS = ['A$', 'B$']
 NUM_VARS = ['I%', 'J%', 'X!', 'K', 'U#']
 ARR_VARS = ['A$(1)', 'I%(1)']
+# further spellings of the roster's variables, used in parameter lists: K completes to K!, K% or K#
+# depending on the DEFtype in force (cfg['defk']); X completes to X!
+ALIAS_VARS = ['K!', 'K%', 'K#', 'X']
+PARAM_POOL = STR_VARS + NUM_VARS + ALIAS_VARS
 DUMP_S = ['A$', 'B$', 'A$(1)']
 DUMP_N = ['I%', 'J%', 'X!', 'K', 'U#', 'I%(1)']
+DUMP_O = ['K!', 'K%', 'K#']          # third dump line (kept apart so that no dump line exceeds the screen width)
+DEFK = {'%': 'DEFINT', '!': 'DEFSNG', '#': 'DEFDBL'}
 FN_NAMES = ['FNP$', 'FNQ$', 'FNR', 'FNS%', 'FNT#']
 BLOCK_T = 14          # idle polls in one line before the hook decides the engine is blocked
 MAX_INKEY = 8         # model gives up (unknown) beyond this many INKEY$ per statement
@@ -213,11 +219,12 @@ ERR_LINE = 9000
 UNK = ('?',)
 
 
-def _norm(name):
-    """Variable name with explicit sigil (default single)."""
+def _norm(name, dk=None):
+    """Variable name with explicit sigil (default single; names in K take the DEFtype sigil dk)."""
     base = name.split('(')[0]
     if base[-1] not in '$%!#':
-        return name.replace(base, base + '!', 1)
+        sig = dk if (dk and base[0] == 'K') else '!'
+        return name.replace(base, base + sig, 1)
     return name
 
 
@@ -225,8 +232,8 @@ def _vtype(name):
     return 's' if _norm(name).split('(')[0][-1] == '$' else 'n'
 
 
-def _sig(name):
-    return _norm(name).split('(')[0][-1]
+def _sig(name, dk=None):
+    return _norm(name, dk).split('(')[0][-1]
 
 
 class BErr(Exception):
@@ -358,6 +365,7 @@ class Model20(object):
 
     def __init__(self, cfg):
         self.cfg = cfg
+        self.dk = cfg.get('defk')
         self.g = {}
         self.defs = {}
         self.frames = []       # [(fn, {param names})]
@@ -368,9 +376,10 @@ class Model20(object):
         self.waits = 0
         self.depth_max = 0
         self.recursed = False
+        self.dup_bound = False
 
     def get(self, name):
-        name = _norm(name)
+        name = _norm(name, self.dk)
         if name in self.g:
             return self.g[name]
         return '' if _vtype(name) == 's' else Fraction(0)
@@ -383,6 +392,7 @@ class Model20(object):
         self.waits = 0
         self.depth_max = 0
         self.recursed = False
+        self.dup_bound = False
 
     def next_key(self):
         """What the blocked INPUT$(1) gets: mirrors the poll hook's consumption of the action list."""
@@ -407,7 +417,7 @@ class Model20(object):
         if k == 'n':
             return ('n', Fraction(node[1], 4))
         if k in ('v', 'e'):
-            name = _norm(node[1])
+            name = _norm(node[1], self.dk)
             t = _vtype(name)
             if k == 'v' and self.frames:
                 if name not in self.frames[-1][1] and any(name in f[1] for f in self.frames[:-1]):
@@ -482,7 +492,7 @@ class Model20(object):
     def call(self, fn, args):
         if fn not in self.defs:
             raise BErr(18)
-        params = [_norm(p) for p in self.cfg['fns'][fn]]
+        params = [_norm(p, self.dk) for p in self.cfg['fns'][fn]]
         if len(args) != len(params):
             raise BErr(2)
         vals = []
@@ -494,8 +504,17 @@ class Model20(object):
         saved = {}
         for p in params:
             saved.setdefault(p, self.g.get(p))
+        bound = {}
         for p, v in zip(params, vals):
-            self.g[p] = v[1]
+            if p in bound and bound[p] != v[1]:
+                # a name that occurs more than once in the parameter list with different argument
+                # values: which of them the body sees is not stated by the property - left unknown.
+                # (The caller's variable of that name must come back unchanged all the same.)
+                bound[p] = UNK
+                self.dup_bound = True
+            else:
+                bound.setdefault(p, v[1])
+        self.g.update(bound)
         self.frames.append((fn, set(params)))
         self.depth_max = max(self.depth_max, len(self.frames))
         try:
@@ -567,16 +586,17 @@ def _gen_expr(rng, t, cx, depth):
 
 def _gen_args(rng, params, cx, depth, mism):
     args = []
+    dk = cx.get('dk')
     for p in params:
         t = _vtype(p)
         r = rng.random()
         if r < mism:
             # an argument that fails to convert
-            if t == 'n' and _sig(p) == '%' and rng.random() < 0.5:
+            if t == 'n' and _sig(p, dk) == '%' and rng.random() < 0.5:
                 args.append(['n', rng.choice([160000, -160000, 131072])])
             else:
                 args.append(_gen_expr(rng, 's' if t == 'n' else 'n', cx, 0))
-        elif t == 'n' and _sig(p) == '%' and r < mism + 0.2:
+        elif t == 'n' and _sig(p, dk) == '%' and r < mism + 0.2:
             args.append(['n', rng.choice([13, 15, -13, -15, 29, 31])])
         else:
             a = _gen_expr(rng, t, cx, depth)
@@ -590,18 +610,29 @@ def _gen_args(rng, params, cx, depth, mism):
 def gen20(rng, tier):
     thorough = tier != 'quick'
     sigs = {}
-    pool = STR_VARS + NUM_VARS
+    # DEFtype in force for names in K: decides which variable the unsuffixed K is
+    dk = rng.choice([None, None, '%', '#', '!'])
     for fn in FN_NAMES:
         n = rng.choice([0, 1, 1, 2, 2, 3, 4])
         ps = []
+        # a parameter list may name the same variable more than once: literally, or through
+        # spellings that complete to the same name (X and X!; K and K%/K#/K! under the DEFtype)
+        dup = n >= 2 and rng.random() < 0.3
         while len(ps) < n:
-            p = rng.choice(pool)
-            if p not in ps and not (p == 'K' and 'K!' in ps):
+            if dup and ps and (len(ps) == n - 1 or rng.random() < 0.4):
+                q = rng.choice(ps)
+                al = [x for x in PARAM_POOL if _norm(x, dk) == _norm(q, dk)]
+                ps.insert(rng.randrange(len(ps) + 1), rng.choice(al + [q]))
+                dup = False
+                continue
+            p = rng.choice(PARAM_POOL)
+            if _norm(p, dk) not in [_norm(x, dk) for x in ps]:
                 ps.append(p)
         sigs[fn] = ps
     faulty = rng.random() < 0.6          # fault-injecting arm (interrupts, forced gc, pressure)
     cfg = {
         'fns': sigs,
+        'defk': dk,
         'onerror': rng.random() < 0.5,
         'trap': rng.random() < 0.4,
         'gc_k': rng.choice([1, 2, 3, 5, 7]) if faulty and rng.random() < 0.7 else 0,
@@ -616,7 +647,7 @@ def gen20(rng, tier):
         r = rng.random()
         if r < 0.30 or (not defined and r < 0.6):
             fn = rng.choice(FN_NAMES)
-            cx = {'params': sigs[fn], 'sigs': sigs,
+            cx = {'params': sigs[fn], 'sigs': sigs, 'dk': dk,
                   'fns': [f for f in FN_NAMES if f != fn and rng.random() < 0.5], 'mism': 0.05,
                   'block': faulty and rng.random() < 0.5, 'faults': rng.random() < 0.4, 'gc': rng.random() < 0.5}
             body = _gen_expr(rng, _vtype(fn), cx, rng.randint(1, 3))
@@ -636,16 +667,16 @@ def gen20(rng, tier):
             if fn not in defined:
                 defined.append(fn)
         elif r < 0.50:
-            var = rng.choice(STR_VARS + NUM_VARS + ARR_VARS)
+            var = rng.choice(STR_VARS + NUM_VARS + ARR_VARS + ALIAS_VARS[:3])
             t = _vtype(var)
-            cx = {'params': [], 'fns': [], 'sigs': sigs}
+            cx = {'params': [], 'fns': [], 'sigs': sigs, 'dk': dk}
             e = _gen_expr(rng, t, cx, rng.randint(0, 1))
-            if t == 'n' and _sig(var) == '%':
+            if t == 'n' and _sig(var, dk) == '%':
                 e = _gen_lit(rng, 'n')
             ops.append({'op': 'let', 'var': var, 'e': e})
         else:
             fn = rng.choice(defined if defined and rng.random() < 0.9 else FN_NAMES)
-            cx = {'params': [], 'sigs': sigs, 'fns': [f for f in defined if rng.random() < 0.3],
+            cx = {'params': [], 'sigs': sigs, 'dk': dk, 'fns': [f for f in defined if rng.random() < 0.3],
                   'mism': 0.12, 'block': False, 'faults': rng.random() < 0.15, 'gc': rng.random() < 0.3}
             e = ['fn', fn, _gen_args(rng, sigs[fn], cx, 1, 0.12)]
             if rng.random() < 0.2:
@@ -675,6 +706,8 @@ def program20(cfg, ops):
     lines = []
     call_lines = {}
     lines.append('10 KEY OFF')
+    if cfg.get('defk'):
+        lines.append('15 %s K' % DEFK[cfg['defk']])
     if cfg.get('onerror'):
         lines.append('20 ON ERROR GOTO %d' % ERR_LINE)
     if cfg.get('trap'):
@@ -699,7 +732,8 @@ def program20(cfg, ops):
     lines.append('%d PRINT "#T|":GOSUB %d:RETURN' % (TRAP_LINE, DUMP_LINE))
     lines.append('%d PRINT "#D|";%s;"|"' % (DUMP_LINE, ';"|";'.join(DUMP_S)))
     lines.append('%d PRINT "#N|";%s;"|"' % (DUMP_LINE + 10, ';"|";'.join(DUMP_N)))
-    lines.append('%d RETURN' % (DUMP_LINE + 20))
+    lines.append('%d PRINT "#O|";%s;"|"' % (DUMP_LINE + 20, ';"|";'.join(DUMP_O)))
+    lines.append('%d RETURN' % (DUMP_LINE + 30))
     # the leading PRINT ends a partially printed "#R|" line
     lines.append('%d PRINT:PRINT "#E|";ERR;"|";ERL;"|":RESUME NEXT' % ERR_LINE)
     return [b(l) for l in lines], call_lines
@@ -859,7 +893,7 @@ def run20(case):
                 tags = [x[1] for x in parse_trace(ctx['sinks'].value()) if x[0] == '#']
                 last = [t_ for t_ in tags if t_ in ('B', 'A', 'T')][-1:] or ['start']
                 n_after = len(tags) - 1 - max([j for j, t_ in enumerate(tags) if t_ in ('B', 'A', 'T')] or [-1])
-                phase = {'B': 'in-call-statement' if n_after >= 2 else 'in-dump-before-call',
+                phase = {'B': 'in-call-statement' if n_after >= 3 else 'in-dump-before-call',
                          'A': 'in-dump-after-call', 'T': 'in-trap-handler-dump', 'start': 'before-first-call'}[last[0]]
                 where += ':' + phase
                 run.res['status'] = 'crash'
@@ -875,6 +909,7 @@ def judge20(run, cfg, ops, call_lines, out, hook):
     ev = parse_trace(out)
     pressure = cfg.get('session', {}).get('max_memory', 65534) < 65534
     m = Model20(cfg)
+    dk = cfg.get('defk')
     pos = [0]
 
     def take_until(tag, idx):
@@ -889,21 +924,20 @@ def judge20(run, cfg, ops, call_lines, out, hook):
         return None
 
     def take_dump():
-        d_, n_ = None, None
+        d_, n_, o_ = None, None, None
         if pos[0] < len(ev) and ev[pos[0]][0] == '#' and ev[pos[0]][1] == 'D' and ev[pos[0]][3]:
             d_ = ev[pos[0]][2]
             pos[0] += 1
         if pos[0] < len(ev) and ev[pos[0]][0] == '#' and ev[pos[0]][1] == 'N' and ev[pos[0]][3]:
             n_ = ev[pos[0]][2]
             pos[0] += 1
-        if d_ is None or n_ is None or len(d_) != len(DUMP_S) or len(n_) != len(DUMP_N):
+        if pos[0] < len(ev) and ev[pos[0]][0] == '#' and ev[pos[0]][1] == 'O' and ev[pos[0]][3]:
+            o_ = ev[pos[0]][2]
+            pos[0] += 1
+        if (d_ is None or n_ is None or o_ is None or len(d_) != len(DUMP_S) or len(n_) != len(DUMP_N)
+                or len(o_) != len(DUMP_O)):
             return None
-        dump = {}
-        for k, v in zip(DUMP_S, d_):
-            dump[_norm(k)] = v
-        for k, v in zip(DUMP_N, n_):
-            dump[_norm(k)] = v
-        return dump
+        return _dump_dict(d_, n_, o_, dk)
 
     def model_text(name):
         v = m.get(name)
@@ -916,7 +950,7 @@ def judge20(run, cfg, ops, call_lines, out, hook):
 
     def resync(name, txt):
         """Model value of one variable from its dump text (after an accepted divergence)."""
-        name = _norm(name)
+        name = _norm(name, dk)
         if _vtype(name) == 's':
             m.g[name] = txt
         else:
@@ -952,8 +986,8 @@ def judge20(run, cfg, ops, call_lines, out, hook):
         if op['op'] == 'let':
             m.begin_stmt([])
             try:
-                val = conv_to(m.ev(op['e']), _sig(op['var']))
-                m.g[_norm(op['var'])] = val[1]
+                val = conv_to(m.ev(op['e']), _sig(op['var'], dk))
+                m.g[_norm(op['var'], dk)] = val[1]
             except BErr:
                 pass
             except Interrupted:
@@ -980,7 +1014,7 @@ def judge20(run, cfg, ops, call_lines, out, hook):
         # abandoned or - as this engine does for a statement interrupted inside an expression -
         # re-executed from its start, consuming the remaining user actions. Both are accepted.
         m.begin_stmt(op.get('acts'))
-        target = _norm(op['var']) if op['ctx'] == 'let' else None
+        target = _norm(op['var'], dk) if op['ctx'] == 'let' else None
         attempts = []
         while len(attempts) < 10:
             try:
@@ -1014,11 +1048,9 @@ def judge20(run, cfg, ops, call_lines, out, hook):
         for j, e in enumerate(mid):
             if e[0] == '#' and e[1] == 'T':
                 dd = {}
-                if j + 2 < len(mid) and mid[j + 1][1:2] == ('D',) and mid[j + 2][1:2] == ('N',):
-                    for k, v in zip(DUMP_S, mid[j + 1][2]):
-                        dd[_norm(k)] = v
-                    for k, v in zip(DUMP_N, mid[j + 2][2]):
-                        dd[_norm(k)] = v
+                if (j + 3 < len(mid) and mid[j + 1][1:2] == ('D',) and mid[j + 2][1:2] == ('N',)
+                        and mid[j + 3][1:2] == ('O',)):
+                    dd = _dump_dict(mid[j + 1][2], mid[j + 2][2], mid[j + 3][2], dk)
                 tdumps.append(dd)
         got_err = None
         if errs:
@@ -1043,7 +1075,7 @@ def judge20(run, cfg, ops, call_lines, out, hook):
                 continue
             if before[name] != after[name]:
                 run.violate('C20', 'caller-var-changed:%s:%s:after-%s' % (
-                    _var_class(cfg, op, name), shadow, ok_kind),
+                    _var_class(cfg, op, name, m), shadow, ok_kind),
                     'call %d at line %d: %s\n%s was %r before the call and %r after it (model outcome %r; forced gc k=%s; '
                     'delivered %r)\nprogram:\n%s' % (i, line, _stmt_text(op), name, before[name], after[name], attempts,
                                                     cfg.get('gc_k'), [a for a in hook.delivered if a[0] == i],
@@ -1148,6 +1180,15 @@ def judge20(run, cfg, ops, call_lines, out, hook):
         run.violate('C20', 'trace-lost:no-fin', 'program did not reach its last line\n%s' % _tail(out))
 
 
+def _dump_dict(d_, n_, o_, dk):
+    """{normalised variable name: dump text}; the unsuffixed K and one of K!/K%/K# are the same variable."""
+    dump = {}
+    for names, flds in ((DUMP_S, d_), (DUMP_N, n_), (DUMP_O, o_)):
+        for k, v in zip(names, flds):
+            dump[_norm(k, dk)] = v
+    return dump
+
+
 def _tail(out):
     return 'output tail: %r' % out[-600:]
 
@@ -1223,32 +1264,39 @@ def _result_class(cfg, op, m):
     fns = sorted(_called_fns(cfg, op['e'], m))
     for node in [op['e']] + [m.defs[f] for f in fns if f in m.defs]:
         for call in _call_nodes(node):
-            ps = [_norm(p) for p in cfg['fns'].get(call[1], [])]
+            ps = [_norm(p, cfg.get('defk')) for p in cfg['fns'].get(call[1], [])]
             for j, a in enumerate(call[2]):
                 # a bare variable passed for parameter j that names an earlier parameter i < j
-                if a[0] == 'v' and _norm(a[1]) in ps[:j]:
+                if a[0] == 'v' and _norm(a[1], cfg.get('defk')) in ps[:j]:
                     return 'argument-is-bare-variable-named-like-an-earlier-parameter'
     for fn in fns:
         body = m.defs.get(fn)
-        if body and body[0] in ('v', 'e') and _sig(body[1]) == _sig(fn):
+        if body and body[0] in ('v', 'e') and _sig(body[1], cfg.get('defk')) == _sig(fn):
             return 'body-is-bare-variable-of-result-type'
     return op['ctx']
 
 
-def _var_class(cfg, op, name):
+def _var_class(cfg, op, name, m=None):
+    dk = cfg.get('defk')
     ps = set()
     for f in cfg['fns']:
-        ps.update(_norm(p) for p in cfg['fns'][f])
+        ps.update(_norm(p, dk) for p in cfg['fns'][f])
     kind = 'str' if _vtype(name) == 's' else 'num'
     if '(' in name:
         return 'array-element-' + kind
+    if m is not None:
+        # named more than once in the parameter list of a function this call reaches
+        for f in sorted(_called_fns(cfg, op['e'], m)):
+            fps = [_norm(p, dk) for p in cfg['fns'].get(f, [])]
+            if fps.count(name) > 1:
+                return 'repeated-parameter-name-' + kind
     if name in ps:
         return 'parameter-name-' + kind
     return 'other-variable-' + kind
 
 
 def simplify20(cfg, ops):
-    for key, val in (('gc_k', 0), ('trap', False), ('onerror', False)):
+    for key, val in (('gc_k', 0), ('trap', False), ('onerror', False), ('defk', None)):
         if cfg.get(key):
             yield dict(cfg, **{key: val}), ops
     if cfg.get('gc_k', 0) > 1:
@@ -1345,7 +1393,11 @@ ERR_CODES = [1, 3, 5, 6, 7, 9, 11, 13, 21, 53, 57, 61, 70, 77, 200, 255, 0]
 MAIN0 = 100
 FIN21 = 4000
 SUB0 = 5000
+T0 = 6000          # the ON KEY(1) GOSUB subroutine
 H0 = 9000
+HB = H0 + 15       # the handler's STOP
+MAX_CONT = 40
+MAX_F1 = 3
 REC_OLD = 'REC1DATA'
 REC_NEW = 'NEWDATA!'
 
@@ -1377,6 +1429,18 @@ def expand(stmts):
             out.append(('R%%=%d' % st[1], ('sel', st[1])))
         elif k == 'selh':
             out.append(('H%%=%d' % st[1], ('selh', st[1])))
+        elif k == 'selb':
+            out.append(('B%%=%d' % st[1], ('selb', st[1])))
+        elif k == 'stop':
+            out.append(('STOP', ('stop',)))
+        elif k == 'onkey':
+            out.append(('ON KEY(1) GOSUB %d' % T0, ('onkey',)))
+        elif k == 'key':
+            out.append(('KEY(1) %s' % st[1], ('key', st[1])))
+        elif k == 'kwait':
+            # the simulator presses F1 (if the model has the trap enabled) and then x while INPUT$ waits
+            out.append(('PRINT "#K|%d|"' % st[1], ('kmark', st[1])))
+            out.append(('Z$=INPUT$(1)', ('kwait',)))
         elif k == 'gosub':
             out.append(('GOSUB %d' % sub_line(st[1]), ('gosub', st[1])))
         elif k == 'ret':
@@ -1436,6 +1500,7 @@ def handler_lines(cfg):
     lines = [
         '%d PRINT:PRINT "#E|";ERR;"|";ERL;"|":C%%=C%%+1:I%%=1' % H0,
         '%d IF C%%>%d THEN PRINT "#LOOP|":END' % (H0 + 10, lim),
+        '%d IF B%%=1 THEN B%%=0:STOP' % HB,
         '%d IF H%%=1 THEN H%%=0:ERROR 77' % (H0 + 20),
         '%d IF H%%=2 THEN H%%=0:Z%%=Q%%(99)' % (H0 + 30),
         '%d IF R%%=1 THEN RESUME' % (H0 + 40),
@@ -1460,6 +1525,9 @@ def program21(cfg, ops):
             ex = expand(op['stmts'])
         elif op['op'] == 'sub':
             n = sub_line(op['id'])
+            ex = expand(op['stmts'] + [['ret']])
+        elif op['op'] == 'trapsub':
+            n = T0
             ex = expand(op['stmts'] + [['ret']])
         else:
             continue
@@ -1502,6 +1570,16 @@ class Model21(object):
         self.R = 0
         self.H = 0
         self.C = 0
+        self.B = 0
+        # KEY(1) event trap: ON KEY GOSUB set / KEY(1) ON / KEY(1) STOP (or inside the trap routine) /
+        # the key was pressed and the trap has not fired yet
+        self.k_gosub = False
+        self.k_enabled = False
+        self.k_stopped = False
+        self.k_latched = False
+        self.kplan = []           # per executed wait: does the simulated user press F1 before x?
+        self.conts = 0            # Break messages (each answered by a typed CONT)
+        self.direct_phase = False
         self.exists = {}
         self.content = {}
         self.open = {}
@@ -1566,6 +1644,22 @@ class Model21(object):
                         return
                     sem = self.direct[p[2]]
                 else:
+                    if self.k_latched:
+                        # statement boundary of a running program: a pending event trap is taken here,
+                        # as a GOSUB that returns to this very statement
+                        if self.direct_phase:
+                            raise Unspec()     # pending trap + program code run from a direct line: left out
+                        if self.k_enabled and not self.k_stopped and self.k_gosub:
+                            target = self.line_ptr(T0)
+                            if target is None:
+                                raise Unspec()
+                            self.k_latched = False
+                            self.k_stopped = True
+                            self.gosub.append((p, self.direct_gen, True))
+                            if self.run is not None:
+                                self.run.probe('event-trap-taken')
+                                self.run.state('trap', self.on_error, len(self.gosub), self.atoms[T0][0][0])
+                            p = target
                     sem = self.atoms[p[1]][p[2]]
                 self.steps += 1
                 if self.steps > 900:
@@ -1612,6 +1706,15 @@ class Model21(object):
             self.ev.append(('LOOP',))
             self.do_end()
             raise Halt()
+        if self.B == 1:
+            # STOP inside the handler; the user types CONT. The handler is still a handler afterwards.
+            self.B = 0
+            self.do_break(HB)
+            if self.run is not None:
+                self.run.probe('break-cont-inside-handler')
+                self.run.state('hbreak', self.H, self.R, code if isinstance(code, int) and code in ERRMSG else -1)
+            if self.resume_ptr is not None and self.resume_ptr[0] == 'D':
+                raise Unspec()        # the direct line to resume in has been replaced by CONT: left out
         if self.H == 1:
             self.H = 0
             return self.raise_error(('P', H0 + 20, 0), 77)
@@ -1638,6 +1741,14 @@ class Model21(object):
             return target
         self.leave_handler()
         return self.next_ptr(rp)
+
+    def do_break(self, line):
+        self.ev.append(('break', line))
+        self.conts += 1
+        self.steps += 2
+        self.direct_gen += 1          # the typed CONT replaces the direct line
+        if self.conts > MAX_CONT:
+            raise Unspec()            # the simulated user stops answering
 
     def leave_handler(self):
         self.in_handler = False
@@ -1681,16 +1792,52 @@ class Model21(object):
             self.R = sem[1]
         elif k == 'selh':
             self.H = sem[1]
+        elif k == 'selb':
+            self.B = sem[1]
+        elif k == 'stop':
+            if p[0] == 'D':
+                raise Unspec()        # STOP in a direct line: nothing to continue, left out
+            self.do_break(p[1])
+        elif k == 'onkey':
+            if self.line_ptr(T0) is None:
+                return self.raise_error(p, 8)
+            self.k_gosub = True
+        elif k == 'key':
+            if any(f[2] for f in self.gosub):
+                # explicit KEY(1) ON/OFF/STOP while the trap routine has not returned: left out
+                raise Unspec()
+            if sem[1] == 'ON':
+                self.k_enabled = True
+                self.k_stopped = False
+            elif sem[1] == 'STOP':
+                self.k_stopped = True
+            else:
+                if self.k_latched:
+                    raise Unspec()    # is a remembered key press forgotten by KEY(1) OFF? left out
+                self.k_enabled = False
+        elif k == 'kmark':
+            self.ev.append(('K', sem[1]))
+        elif k == 'kwait':
+            # F1 is pressed only where it is documented to be an event: trap routine set, KEY(1) ON
+            # executed (possibly stopped: then it is remembered), program running from RUN
+            # (at most MAX_F1 times per run: a wait inside the trap routine would re-trigger it for ever)
+            send = self.k_gosub and self.k_enabled and not self.direct_phase and sum(self.kplan) < MAX_F1
+            self.kplan.append(bool(send))
+            self.steps += 8
+            if send:
+                self.k_latched = True
         elif k == 'gosub':
             target = self.line_ptr(sub_line(sem[1]))
             if target is None:
                 return self.raise_error(p, 8)
-            self.gosub.append((nxt, self.direct_gen))
+            self.gosub.append((nxt, self.direct_gen, False))
             return target
         elif k == 'ret':
             if not self.gosub:
                 return self.raise_error(p, 3)
-            back, gen_ = self.gosub.pop()
+            back, gen_, trap = self.gosub.pop()
+            if trap:
+                self.k_stopped = False      # RETURN from the trap routine re-enables the trap
             if back is not None and back[0] == 'D' and gen_ != self.direct_gen:
                 raise Unspec()        # return into a direct line that has been replaced: left out
             return back
@@ -1806,13 +1953,16 @@ class Model21(object):
         self.in_handler = False
         self.resume_ptr = None
         self.gosub = []
-        self.I = self.R = self.H = self.C = 0
+        self.I = self.R = self.H = self.C = self.B = 0
+        self.k_gosub = self.k_enabled = self.k_stopped = self.k_latched = False
+        self.direct_phase = False
         self.open.clear()
         first = self.linenos[0]
         self.run_from(('P', first, 0))
 
     def run_direct(self, stmts):
         self.direct = [sem for _, sem in expand(stmts)]
+        self.direct_phase = True
         self.direct_gen += 1
         self.run_from(('D', 0, 0))
 
@@ -1854,6 +2004,11 @@ def _gen_site(rng, cx):
     pre.append(['sel', sel])
     if rng.random() < 0.08:
         pre.append(['selh', rng.choice([1, 2])])
+    if rng.random() < 0.08:
+        # the handler STOPs, the user CONTinues: everything after that must go on as without the Break
+        pre.append(['selb', 1])
+        if len(pre) == 2 and rng.random() < 0.5:
+            pre.append(['selh', rng.choice([1, 2])])
     if r < 0.22:
         st = ['err', rng.choice(ERR_CODES)]
     elif r < 0.40:
@@ -1918,12 +2073,16 @@ def gen21(rng, tier):
             elif r < 0.90:
                 stmts.append(['ret'])
                 stmts.append(mark())
+            elif r < 0.93 and not in_direct[0]:
+                stmts.append(['stop'])
+                stmts.append(mark())
             else:
                 stmts.append(mark())
         return stmts
 
     armed_first = rng.random() < 0.8
     sub_ids = list(range(1, n_subs + 1))
+    in_direct = [False]
     for k in ids:
         st = body(rng.randint(1, 2), False, sub_ids)
         if k == 1 and armed_first:
@@ -1931,6 +2090,36 @@ def gen21(rng, tier):
         ops.append({'op': 'line', 'id': k, 'stmts': st})
     for k in sub_ids:
         ops.append({'op': 'sub', 'id': k, 'stmts': body(rng.randint(1, 2), True, [j for j in sub_ids if j > k])})
+    if rng.random() < 0.35:
+        # event arm: an ON KEY(1) GOSUB routine entered asynchronously, between two statements, when
+        # the simulated user presses F1 - either while the trap is on (taken right after the wait) or
+        # while it is stopped (remembered, taken after the KEY(1) ON / the RETURN that re-enables it).
+        # Its statements are fault sites like any others; the first one often fails at once.
+        tstm = []
+        tpre = []
+        if rng.random() < 0.75:
+            tpre, st = _gen_site(rng, cx)
+            tstm += [st, mark()]
+        else:
+            tstm.append(mark())
+        tstm += body(rng.randint(0, 2), True, sub_ids)
+        ops.append({'op': 'trapsub', 'stmts': tstm})
+        setup = [['onkey'], ['key', 'ON']]
+        if rng.random() < 0.1:
+            setup = rng.choice([[['key', 'ON'], ['onkey']], [['onkey']], [['key', 'ON']]])
+        ops[0]['stmts'][1 if armed_first else 0:0] = setup
+        for _ in range(rng.choice([1, 1, 2])):
+            marker[0] += 1
+            if rng.random() < 0.7:
+                blk = tpre + [['kwait', marker[0]], mark()]
+            else:
+                blk = [['key', 'STOP'], ['kwait', marker[0]], mark()] + tpre + [['key', rng.choice(['ON', 'ON', 'ON', 'OFF'])], mark()]
+            host = ops[rng.randrange(len(ids) + len(sub_ids))]['stmts'] if rng.random() < 0.9 else tstm
+            cuts = [i for i in range(len(host) + 1) if i == 0 or host[i - 1][0] not in ('sel', 'selh', 'selb', 'seti')]
+            at = rng.choice(cuts)
+            host[at:at] = blk
+            tpre = []
+    in_direct[0] = True
     if rng.random() < 0.15:
         # RESUME outside a handler with no trap armed: the last thing the program does
         ops[len(ids) - 1]['stmts'] += [['onerr', 0], ['resume', rng.choice(['', 'NEXT'] + landings[:1])], mark()]
@@ -1971,6 +2160,46 @@ def simplify21(cfg, ops):
 
 # ---------------------------------------------------------------------------
 # run + judge
+
+class Hook21(object):
+    """
+    The user of a C21 run: answers every Break message with CONT, and when the program announces
+    a wait ("#K|n|" at the start of an output line, followed by INPUT$(1)) presses F1 - if the plan
+    computed by the model says the trap is enabled there - and then x, once the engine is inside
+    the INPUT$.
+    """
+
+    def __init__(self, sink, kplan):
+        self.sink = sink
+        self.kplan = list(kplan)
+        self.scan = 0
+        self.n_k = 0
+        self.due = []
+        self.n_break = 0
+
+    def __call__(self, w, t):
+        buf = self.sink.buf
+        n = len(buf)
+        if n > self.scan:
+            new_k = buf.count(b'\n#K|', max(0, self.scan - 3), n)
+            new_b = buf.count(b'Break in ', max(0, self.scan - 8), n)
+            self.scan = n
+            for _ in range(new_k):
+                f1 = self.kplan[self.n_k] if self.n_k < len(self.kplan) else False
+                self.n_k += 1
+                self.due.append([w.poll_no + 3, f1])
+            for _ in range(new_b):
+                self.n_break += 1
+                if self.n_break <= MAX_CONT:
+                    t.script.insert(t.pos, {'t': 'line', 'text': u'CONT'})
+        while self.due and w.poll_no >= self.due[0][0]:
+            _, f1 = self.due.pop(0)
+            if f1:
+                from pcbasic.basic.base import scancode
+                w.inputs.pending.append(K.sig_key(u'\0\x3b', scancode.F1, ()))
+                w.faults['f1-trap-key'] += 1
+            w.inputs.pending.append(K.sig_key(u'x', None, ()))
+
 
 def run21(case):
     cfg = case['cfg']
@@ -2035,7 +2264,8 @@ def run21(case):
                 typed += n_fail + 2
                 run.probe('load-probe')
             p0 = w.poll_no
-            t = interact(d, script, poll_cap=120000, stall_polls=6000)
+            typed += model.conts
+            t = interact(d, script, extra=Hook21(sink, model.kplan), poll_cap=120000, stall_polls=6000)
             polls = w.poll_no - p0
             run.res['stats']['stalled'] += t.stalled
             d.close()
@@ -2073,8 +2303,8 @@ def _norm_trace(ev):
         if e[0] == '#':
             tag, f, complete = e[1], e[2], e[3]
             try:
-                if tag == 'M' and complete:
-                    out.append(('M', int(f[0])))
+                if tag in ('M', 'K') and complete:
+                    out.append((tag, int(f[0])))
                 elif tag == 'E' and complete:
                     out.append(('E', int(f[0]), int(f[1])))
                 elif tag == 'G':
@@ -2128,7 +2358,7 @@ def judge21(run, cfg, ops, model, out, polls, typed, stalled, fs):
         return
     # bounded liveness: once the faults stop the program finishes within the predicted number of
     # statements (one poll per statement boundary; generous constant for the typed lines)
-    bound = 6 * model.steps + 120 * typed + 400
+    bound = 6 * model.steps + 120 * typed + 400 + 40 * len(model.kplan)
     if polls > bound or stalled:
         run.violate('C21', 'liveness:polls-exceed-model-bound',
                     'engine used %d polls (stalled %d), model executed %d statements (bound %d)\nprogram:\n%s' % (
@@ -2145,5 +2375,5 @@ def _evclass(e):
     if e[0] in ('stop', 'derr'):
         return '%s%s' % (e[0], e[1] if not isinstance(e[1], tuple) else '/'.join(map(str, e[1])))
     if e[0] == 'E':
-        return 'E%s@%s' % (e[1] if not isinstance(e[1], tuple) else '/'.join(map(str, e[1])), 'direct' if e[2] == 65535 else ('handler' if e[2] >= H0 else ('sub' if e[2] >= SUB0 else 'main')))
+        return 'E%s@%s' % (e[1] if not isinstance(e[1], tuple) else '/'.join(map(str, e[1])), 'direct' if e[2] == 65535 else ('handler' if e[2] >= H0 else ('trapsub' if e[2] >= T0 else ('sub' if e[2] >= SUB0 else 'main'))))
     return str(e[0])
